@@ -141,8 +141,8 @@ Bind(m, as0) ==
 (* of replacements; the hide sets make every expansion terminate (law      *)
 (* Terminates), the bound only turns a mistake in this module into Undef.  *)
 (***************************************************************************)
-Fuel == 40
-MaxLen == 300      \* token sequences longer than this are not judged (TLC evaluates Expand with one stack frame per token)
+Fuel == 24
+MaxLen == 100      \* token sequences longer than this are not judged (TLC evaluates Expand with one stack frame per token)
 HsAdd(hs, ts) == [i \in DOMAIN ts |-> [ts[i] EXCEPT !.h = @ \cup hs]]
 NoPM(ts) == SelectSeq(ts, LAMBDA t : t.k # "pm")
 
